@@ -45,11 +45,11 @@ Proof.
     + exfalso. clear -H. induction r as [|x r IHr]; cbn [fold_left] in H; [discriminate|auto].
 Qed.
 
-Lemma cleanup_keys c now s s' :
-  NoDup (map fst (flows s)) -> cleanup c now s = Some s' -> NoDup (map fst (flows s')).
+Lemma cleanup_keys c P s s' :
+  NoDup (map fst (flows s)) -> cleanup_gen c P s = Some s' -> NoDup (map fst (flows s')).
 Proof.
-  intros Hn H. unfold cleanup in H.
-  destruct (fold_left remove_one (to_remove c now (clear_scores s)) (Some (clear_scores s))) as [s2|] eqn:E; [|discriminate].
+  intros Hn H. unfold cleanup_gen in H.
+  destruct (fold_left remove_one (to_remove_gen P (clear_scores s)) (Some (clear_scores s))) as [s2|] eqn:E; [|discriminate].
   destruct (rebuild_actions (actions s2) (all_action_uids s2) []); [|discriminate].
   inversion H; subst s'. simpl. unfold purge_flows. rewrite map_map. simpl.
   change (map (fun x : string * inst => fst x) (flows s2)) with (map fst (flows s2)).
@@ -57,13 +57,13 @@ Proof.
 Qed.
 
 (* ---- which instances a clean-up removes *)
-Lemma cleanup_dom c now s s' u :
-  NoDup (map fst (flows s)) -> cleanup c now s = Some s' ->
+Lemma cleanup_dom c P s s' u :
+  core_pred P -> NoDup (map fst (flows s)) -> cleanup_gen c P s = Some s' ->
   (slook (flows s') u = None <->
-   slook (flows s) u = None \/ exists i, slook (flows s) u = Some i /\ removable c now i = true).
+   slook (flows s) u = None \/ exists i, slook (flows s) u = Some i /\ P u i = true).
 Proof.
-  intros Hn Hr. destruct (cleanup_frame c now s s' Hn Hr) as (_ & Fr & Fb & _).
-  destruct (cleanup_only_done c now s s' Hn Hr) as [Od _]. split.
+  intros HP Hn Hr. destruct (cleanup_frame c P HP s s' Hn Hr) as (_ & Fr & Fb & _).
+  destruct (cleanup_only_done c P HP s s' Hn Hr) as [Od _]. split.
   - intro H. destruct (slook (flows s) u) as [i|] eqn:E; [right|now left]. exists i. split; [reflexivity|]. eapply Od; eauto.
   - intros [H|(i & Hi & Hrm)].
     + destruct (slook (flows s') u) as [i'|] eqn:E; [|reflexivity]. destruct (Fb u i' E) as (i & Hi & _). congruence.
@@ -77,38 +77,38 @@ Proof.
   apply Z.ltb_lt in H2. replace (age c <? t2 - i_updated i) with true by (symmetry; apply Z.ltb_lt; lia). reflexivity.
 Qed.
 
-Lemma frame_removable c now gone i i' : frame_rel gone i i' -> removable c now i' = removable c now i.
-Proof.
-  intros ((E1 & E2 & E3 & E4 & _) & _). unfold removable, is_done, old_enough. now rewrite E2, E3, E4.
-Qed.
+Lemma frame_core_eq gone i i' : frame_rel gone i i' -> core_eq i' i.
+Proof. intros ((E1 & E2 & E3 & E4 & E5 & _) & _). unfold core_eq. tauto. Qed.
 
+(* two removal conditions, the second weaker than the first (a later clock) *)
 Section Later.
   Variable c : cfg.
-  Variables t1 t2 : Z.
+  Variables P1 P2 : string -> inst -> bool.
+  Hypothesis HP1 : core_pred P1.
+  Hypothesis HP2 : core_pred P2.
+  Hypothesis Hmono : forall u i, P1 u i = true -> P2 u i = true.
   Variables s s1 s12 s2 : state.
-  Hypothesis Hgt : cmp_gt c = true.
-  Hypothesis Ht : t1 <= t2.
   Hypothesis Hdict : NoDup (map fst (flows s)).
-  Hypothesis R1 : cleanup c t1 s = Some s1.
-  Hypothesis R12 : cleanup c t2 s1 = Some s12.
-  Hypothesis R2 : cleanup c t2 s = Some s2.
+  Hypothesis R1 : cleanup_gen c P1 s = Some s1.
+  Hypothesis R12 : cleanup_gen c P2 s1 = Some s12.
+  Hypothesis R2 : cleanup_gen c P2 s = Some s2.
 
-  Let Hdict1 : NoDup (map fst (flows s1)) := cleanup_keys c t1 s s1 Hdict R1.
+  Let Hdict1 : NoDup (map fst (flows s1)) := cleanup_keys c P1 s s1 Hdict R1.
 
   (* the same instances survive *)
   Theorem later_same_domain u : slook (flows s12) u = None <-> slook (flows s2) u = None.
   Proof.
-    rewrite (cleanup_dom c t2 s1 s12 u Hdict1 R12), (cleanup_dom c t2 s s2 u Hdict R2), (cleanup_dom c t1 s s1 u Hdict R1).
-    destruct (cleanup_frame c t1 s s1 Hdict R1) as (_ & Fr & Fb & _). split.
+    rewrite (cleanup_dom c P2 s1 s12 u HP2 Hdict1 R12), (cleanup_dom c P2 s s2 u HP2 Hdict R2), (cleanup_dom c P1 s s1 u HP1 Hdict R1).
+    destruct (cleanup_frame c P1 HP1 s s1 Hdict R1) as (_ & Fr & Fb & _). split.
     - intros [[H|(i & Hi & Hrm)]|(i1 & Hi1 & Hrm)]; [now left| |].
-      + right. exists i. split; [exact Hi|]. eapply removable_mono; eauto.
+      + right. exists i. split; [exact Hi|]. apply Hmono. exact Hrm.
       + destruct (Fb u i1 Hi1) as (i & Hi & Hnr). destruct (Fr u i Hi Hnr) as (i1' & Hi1' & Hf).
         rewrite Hi1 in Hi1'. inversion Hi1'; subst i1'. right. exists i. split; [exact Hi|].
-        rewrite <- (frame_removable c t2 _ i i1 Hf). exact Hrm.
+        rewrite <- (HP2 u _ _ (frame_core_eq _ i i1 Hf)). exact Hrm.
     - intros [H|(i & Hi & Hrm)]; [left; now left|].
-      destruct (removable c t1 i) eqn:E; [left; right; eauto|].
+      destruct (P1 u i) eqn:E; [left; right; eauto|].
       destruct (Fr u i Hi E) as (i1 & Hi1 & Hf). right. exists i1. split; [exact Hi1|].
-      rewrite (frame_removable c t2 _ i i1 Hf). exact Hrm.
+      rewrite (HP2 u _ _ (frame_core_eq _ i i1 Hf)). exact Hrm.
   Qed.
 
   (* a surviving instance is the same: all scalar fields, the cleared heads, the listed actions *)
@@ -119,9 +119,9 @@ Section Later.
     i_rest i12 = i_rest i2 /\ i_heads i12 = i_heads i2 /\ map fst (i_scopes i12) = map fst (i_scopes i2).
   Proof.
     intros H12 H2.
-    destruct (cleanup_frame c t2 s1 s12 Hdict1 R12) as (_ & Fr12 & Fb12 & _).
-    destruct (cleanup_frame c t1 s s1 Hdict R1) as (_ & Fr1 & Fb1 & _).
-    destruct (cleanup_frame c t2 s s2 Hdict R2) as (_ & Fr2 & Fb2 & _).
+    destruct (cleanup_frame c P2 HP2 s1 s12 Hdict1 R12) as (_ & Fr12 & Fb12 & _).
+    destruct (cleanup_frame c P1 HP1 s s1 Hdict R1) as (_ & Fr1 & Fb1 & _).
+    destruct (cleanup_frame c P2 HP2 s s2 Hdict R2) as (_ & Fr2 & Fb2 & _).
     destruct (Fb12 u i12 H12) as (i1 & Hi1 & Hn1). destruct (Fr12 u i1 Hi1 Hn1) as (x & Hx & F12).
     rewrite H12 in Hx. inversion Hx; subst x.
     destruct (Fb1 u i1 Hi1) as (i & Hi & Hn). destruct (Fr1 u i Hi Hn) as (x & Hx1 & F1).
@@ -145,10 +145,10 @@ Section Later.
                       forall x, In x l12 <-> In x l2).
   Proof.
     intros Pc Ps Hcl H12 H2.
-    pose proof (cleanup_preserves_closed c t1 s s1 Hdict R1 Pc Ps Hcl) as Hcl1.
-    destruct (cleanup_frame c t2 s1 s12 Hdict1 R12) as (_ & Fr12 & Fb12 & _).
-    destruct (cleanup_frame c t1 s s1 Hdict R1) as (_ & Fr1 & Fb1 & _).
-    destruct (cleanup_frame c t2 s s2 Hdict R2) as (_ & Fr2 & Fb2 & _).
+    pose proof (cleanup_preserves_closed c P1 HP1 s s1 Hdict R1 Pc Ps Hcl) as Hcl1.
+    destruct (cleanup_frame c P2 HP2 s1 s12 Hdict1 R12) as (_ & Fr12 & Fb12 & _).
+    destruct (cleanup_frame c P1 HP1 s s1 Hdict R1) as (_ & Fr1 & Fb1 & _).
+    destruct (cleanup_frame c P2 HP2 s s2 Hdict R2) as (_ & Fr2 & Fb2 & _).
     destruct (Fb12 u i12 H12) as (i1 & Hi1 & Hn1). destruct (Fr12 u i1 Hi1 Hn1) as (y & Hy & F12).
     rewrite H12 in Hy. inversion Hy; subst y.
     destruct (Fb1 u i1 Hi1) as (i & Hi & Hn). destruct (Fr1 u i Hi Hn) as (y & Hy1 & F1).
@@ -159,9 +159,9 @@ Section Later.
     assert (Key : forall x, present s x ->
               (slook (flows s12) x <> None <-> slook (flows s2) x <> None)).
     { intros x _. pose proof (later_same_domain x). tauto. }
-    destruct (cleanup_lookups c t2 s1 s12 Hdict1 R12 Pc Ps Hcl1 u i1 i12 Hi1 H12) as (L12a & L12b & L12c & _).
-    destruct (cleanup_lookups c t1 s s1 Hdict R1 Pc Ps Hcl u i i1 Hi Hi1) as (L1a & L1b & L1c & _).
-    destruct (cleanup_lookups c t2 s s2 Hdict R2 Pc Ps Hcl u i i2 Hi H2) as (L2a & L2b & L2c & _).
+    destruct (cleanup_lookups c P2 HP2 s1 s12 Hdict1 R12 Pc Ps Hcl1 u i1 i12 Hi1 H12) as (L12a & L12b & L12c & _).
+    destruct (cleanup_lookups c P1 HP1 s s1 Hdict R1 Pc Ps Hcl u i i1 Hi Hi1) as (L1a & L1b & L1c & _).
+    destruct (cleanup_lookups c P2 HP2 s s2 Hdict R2 Pc Ps Hcl u i i2 Hi H2) as (L2a & L2b & L2c & _).
     destruct F12 as ((_ & _ & _ & _ & _ & _ & _ & _ & S12 & _) & (_ & Sc12)).
     destruct F1 as ((_ & _ & _ & _ & _ & _ & _ & _ & S1 & _) & (_ & Sc1)).
     destruct F2 as ((_ & _ & _ & _ & _ & _ & _ & _ & S2 & _) & (_ & Sc2)).
@@ -181,7 +181,7 @@ Section Later.
         * destruct (in_dec string_dec x (i_children i12)) as [?|Hno]; [assumption|].
           destruct (L12b x Hin1 Hno) as (_ & _ & _ & Hg). contradiction.
         * destruct (L1b x Hin Hno1) as (_ & _ & _ & Hg1). exfalso. apply Hp12.
-          apply (cleanup_dom c t2 s1 s12 x Hdict1 R12). now left.
+          apply (cleanup_dom c P2 s1 s12 x HP2 Hdict1 R12). now left.
     - intros k l12 l2 Hl12 Hl2 x.
       destruct (Sc12 k l12 Hl12) as (l1 & Hl1 & Sub12 & G12). destruct (Sc1 k l1 Hl1) as (l & Hl & Sub1 & G1).
       destruct (Sc2 k l2 Hl2) as (l' & Hl' & Sub2 & G2). rewrite Hl in Hl'. inversion Hl'; subst l'.
@@ -196,25 +196,25 @@ Section Later.
         { intro Hg. apply (proj1 (later_same_domain x)) in Hg. congruence. }
         destruct (in_dec string_dec x l1) as [Hin1|Hno1].
         * destruct (in_dec string_dec x l12) as [?|Hno]; [assumption|]. exfalso. exact (Hp12 (G12 x Hin1 Hno)).
-        * exfalso. apply Hp12. apply (cleanup_dom c t2 s1 s12 x Hdict1 R12). left. exact (G1 x Hin Hno1).
+        * exfalso. apply Hp12. apply (cleanup_dom c P2 s1 s12 x HP2 Hdict1 R12). left. exact (G1 x Hin Hno1).
   Qed.
 
   (* the same actions survive, with the same values *)
   Theorem later_same_actions a : slook (actions s12) a = slook (actions s2) a.
   Proof.
-    destruct (cleanup_frame c t2 s1 s12 Hdict1 R12) as (_ & _ & _ & Fa12 & Fra12 & _).
-    destruct (cleanup_frame c t1 s s1 Hdict R1) as (_ & _ & _ & Fa1 & _).
-    destruct (cleanup_frame c t2 s s2 Hdict R2) as (_ & _ & _ & Fa2 & Fra2 & _).
-    pose proof (cleanup_keys c t2 s1 s12 Hdict1 R12) as Hd12. pose proof (cleanup_keys c t2 s s2 Hdict R2) as Hd2.
+    destruct (cleanup_frame c P2 HP2 s1 s12 Hdict1 R12) as (_ & _ & _ & Fa12 & Fra12 & _).
+    destruct (cleanup_frame c P1 HP1 s s1 Hdict R1) as (_ & _ & _ & Fa1 & _).
+    destruct (cleanup_frame c P2 HP2 s s2 Hdict R2) as (_ & _ & _ & Fa2 & Fra2 & _).
+    pose proof (cleanup_keys c P2 s1 s12 Hdict1 R12) as Hd12. pose proof (cleanup_keys c P2 s s2 Hdict R2) as Hd2.
     assert (Same : forall u i12 i2, slook (flows s12) u = Some i12 -> slook (flows s2) u = Some i2 -> i_actions i12 = i_actions i2)
       by (intros u i12 i2 H1 H2; apply (later_same_instance u i12 i2 H1 H2)).
     destruct (slook (actions s12) a) as [x|] eqn:E12; destruct (slook (actions s2) a) as [y|] eqn:E2; auto.
     - pose proof (Fa1 a x (Fa12 a x E12)) as Hx. pose proof (Fa2 a y E2) as Hy. congruence.
-    - exfalso. destruct (cleanup_actions_ref c t2 s1 s12 R12 a x E12) as (u & i12 & Hin & Hia).
+    - exfalso. destruct (cleanup_actions_ref c P2 s1 s12 R12 a x E12) as (u & i12 & Hin & Hia).
       apply in_slook in Hin; [|exact Hd12].
       destruct (slook (flows s2) u) as [i2|] eqn:Eu; [|apply (proj2 (later_same_domain u)) in Eu; congruence].
       rewrite (Same u i12 i2 Hin Eu) in Hia. exact (Fra2 u i2 a (slook_in _ _ _ Eu) Hia E2).
-    - exfalso. destruct (cleanup_actions_ref c t2 s s2 R2 a y E2) as (u & i2 & Hin & Hia).
+    - exfalso. destruct (cleanup_actions_ref c P2 s s2 R2 a y E2) as (u & i2 & Hin & Hia).
       apply in_slook in Hin; [|exact Hd2].
       destruct (slook (flows s12) u) as [i12|] eqn:Eu; [|apply (proj1 (later_same_domain u)) in Eu; congruence].
       rewrite <- (Same u i12 i2 Eu Hin) in Hia. exact (Fra12 u i12 a (slook_in _ _ _ Eu) Hia E12).
@@ -222,8 +222,8 @@ Section Later.
 
   Theorem later_same_rest : s_rest s12 = s_rest s2.
   Proof.
-    destruct (cleanup_frame c t2 s1 s12 Hdict1 R12) as (A & _). destruct (cleanup_frame c t1 s s1 Hdict R1) as (B & _).
-    destruct (cleanup_frame c t2 s s2 Hdict R2) as (C' & _). congruence.
+    destruct (cleanup_frame c P2 HP2 s1 s12 Hdict1 R12) as (A & _). destruct (cleanup_frame c P1 HP1 s s1 Hdict R1) as (B & _).
+    destruct (cleanup_frame c P2 HP2 s s2 Hdict R2) as (C' & _). congruence.
   Qed.
 End Later.
 
@@ -272,20 +272,20 @@ Section Total.
   Qed.
 End Total.
 
-Theorem cleanup_total c now s :
-  NoDup (map fst (flows s)) -> closed_refs s -> listed_by_flow s -> exists s', cleanup c now s = Some s'.
+Theorem cleanup_total c P s :
+  NoDup (map fst (flows s)) -> closed_refs s -> listed_by_flow s -> exists s', cleanup_gen c P s = Some s'.
 Proof.
-  intros Hn Hcl Hlb. unfold cleanup.
-  set (s1 := clear_scores s). set (rem := to_remove c now s1).
+  intros Hn Hcl Hlb. unfold cleanup_gen.
+  set (s1 := clear_scores s). set (rem := to_remove_gen P s1).
   assert (HF1 : flows s1 = map (fun kv => (fst kv, clear_heads (snd kv))) (flows s)) by reflexivity.
   assert (Hk1 : NoDup (map fst (flows s1))) by (rewrite HF1, map_map; exact Hn).
   assert (Hlook : forall u, slook (flows s1) u = option_map clear_heads (slook (flows s) u))
     by (intro u; rewrite HF1; apply slook_map_snd).
-  assert (Hrem : NoDup rem) by (unfold rem, to_remove; apply nodup_filter_keys; exact Hk1).
+  assert (Hrem : NoDup rem) by (unfold rem, to_remove_gen; apply nodup_filter_keys; exact Hk1).
   destruct (fold_total (flows s1) (by_flow s) (actions s) (s_rest s) rem [] s1) as (s2 & Hs2).
   - destruct s as [fl bf ac rs]. apply linv_init.
   - exact Hrem.
-  - intros u Hu. split; [tauto|]. unfold rem, to_remove in Hu. apply in_map_iff in Hu as ([u' i1] & <- & Hf).
+  - intros u Hu. split; [tauto|]. unfold rem, to_remove_gen in Hu. apply in_map_iff in Hu as ([u' i1] & <- & Hf).
     apply filter_In in Hf as [Hin _]. simpl. pose proof (in_slook _ _ _ Hk1 Hin) as Hl1.
     rewrite Hlook in Hl1. destruct (slook (flows s) u') as [i|] eqn:Ei; [|discriminate]. simpl in Hl1. inversion Hl1; subst i1.
     destruct (Hlb u' i Ei) as (l & Hl & Hin'). exists (clear_heads i), l. rewrite Hlook, Ei. simpl. auto.
@@ -302,11 +302,11 @@ Proof.
     + rewrite HB. eauto.
 Qed.
 
-Theorem cleanup_preserves_listed c now s s' :
-  NoDup (map fst (flows s)) -> cleanup c now s = Some s' -> listed_by_flow s -> listed_by_flow s'.
+Theorem cleanup_preserves_listed c P s s' :
+  core_pred P -> NoDup (map fst (flows s)) -> cleanup_gen c P s = Some s' -> listed_by_flow s -> listed_by_flow s'.
 Proof.
-  intros Hn Hr Hl u i' Hi'.
-  destruct (cleanup_frame c now s s' Hn Hr) as (_ & Fr & Fb & _ & _ & Fby & Fkeep).
+  intros HP Hn Hr Hl u i' Hi'.
+  destruct (cleanup_frame c P HP s s' Hn Hr) as (_ & Fr & Fb & _ & _ & Fby & Fkeep).
   destruct (Fb u i' Hi') as (i & Hi & Hnr). destruct (Fr u i Hi Hnr) as (i2 & Hi2 & ((Efl & _) & _)).
   rewrite Hi' in Hi2. inversion Hi2; subst i2.
   destruct (Hl u i Hi) as (l & Hll & Hin). destruct (Fkeep _ _ Hll) as (l' & Hl').
@@ -358,46 +358,46 @@ Qed.
 (* ---------------------------------------------------------------------------------- *)
 (* the per-flow lists: exactly the removed instances leave them *)
 
-Lemma by_flow_char c now s s' :
-  NoDup (map fst (flows s)) -> cleanup c now s = Some s' -> closed_refs s ->
+Lemma by_flow_char c P s s' :
+  core_pred P -> NoDup (map fst (flows s)) -> cleanup_gen c P s = Some s' -> closed_refs s ->
   forall f l l', slook (by_flow s) f = Some l -> slook (by_flow s') f = Some l' ->
   forall x, In x l' <-> In x l /\ slook (flows s') x <> None.
 Proof.
-  intros Hn Hr Hcl f l l' Hl Hl' x.
-  destruct (cleanup_frame c now s s' Hn Hr) as (_ & Fr & Fb & _ & _ & Fby & _).
+  intros HP Hn Hr Hcl f l l' Hl Hl' x.
+  destruct (cleanup_frame c P HP s s' Hn Hr) as (_ & Fr & Fb & _ & _ & Fby & _).
   destruct (Fby f l' Hl') as (l0 & Hl0 & Hsub & Hg). rewrite Hl in Hl0. inversion Hl0; subst l0.
   destruct (cr_by_flow s Hcl f l Hl) as [Hnd Hmem].
   assert (HndAll : forall f0 l0, slook (by_flow s) f0 = Some l0 -> NoDup l0) by (intros f0 l0 H; exact (proj1 (cr_by_flow s Hcl f0 l0 H))).
-  rewrite cleanup_split in Hr. destruct (cleanup0 c now s) as [s0|] eqn:H0; [|discriminate].
+  rewrite cleanup_split in Hr. destruct (cleanup0 P s) as [s0|] eqn:H0; [|discriminate].
   inversion Hr; subst s'. simpl in *.
-  destruct (cleanup0_by_gone c now s s0 Hn H0 HndAll f l' Hl') as [_ G].
+  destruct (cleanup0_by_gone P HP s s0 Hn H0 HndAll f l' Hl') as [_ G].
   split.
   - intro Hx. split; [auto|]. destruct (Hmem x (Hsub x Hx)) as (i & Hi & Hfl).
-    destruct (removable c now i) eqn:E; [exfalso; exact (G x i Hi E Hfl Hx)|].
+    destruct (P x i) eqn:E; [exfalso; exact (G x i Hi E Hfl Hx)|].
     destruct (Fr x i Hi E) as (i' & Hi' & _). congruence.
   - intros [Hx Hp]. destruct (in_dec string_dec x l') as [?|Hno]; [assumption|]. exfalso. exact (Hp (Hg x Hx Hno)).
 Qed.
 
-Theorem later_same_by_flow c t1 t2 s s1 s12 s2 :
-  cmp_gt c = true -> t1 <= t2 -> NoDup (map fst (flows s)) ->
-  cleanup c t1 s = Some s1 -> cleanup c t2 s1 = Some s12 -> cleanup c t2 s = Some s2 ->
+Theorem later_same_by_flow c P1 P2 s s1 s12 s2 :
+  core_pred P1 -> core_pred P2 -> (forall u i, P1 u i = true -> P2 u i = true) -> NoDup (map fst (flows s)) ->
+  cleanup_gen c P1 s = Some s1 -> cleanup_gen c P2 s1 = Some s12 -> cleanup_gen c P2 s = Some s2 ->
   purge_children c = true -> purge_scopes c = true -> closed_refs s ->
   forall f l12 l2, slook (by_flow s12) f = Some l12 -> slook (by_flow s2) f = Some l2 ->
   forall x, In x l12 <-> In x l2.
 Proof.
-  intros Hgt Ht Hn R1 R12 R2 Pc Ps Hcl f l12 l2 H12 H2 x.
-  pose proof (cleanup_keys c t1 s s1 Hn R1) as Hn1.
-  pose proof (cleanup_preserves_closed c t1 s s1 Hn R1 Pc Ps Hcl) as Hcl1.
-  destruct (cleanup_frame c t2 s1 s12 Hn1 R12) as (_ & _ & _ & _ & _ & Fby12 & _).
-  destruct (cleanup_frame c t1 s s1 Hn R1) as (_ & _ & _ & _ & _ & Fby1 & _).
-  destruct (cleanup_frame c t2 s s2 Hn R2) as (_ & _ & _ & _ & _ & Fby2 & _).
+  intros HP1 HP2 Hmono Hn R1 R12 R2 Pc Ps Hcl f l12 l2 H12 H2 x.
+  pose proof (cleanup_keys c P1 s s1 Hn R1) as Hn1.
+  pose proof (cleanup_preserves_closed c P1 HP1 s s1 Hn R1 Pc Ps Hcl) as Hcl1.
+  destruct (cleanup_frame c P2 HP2 s1 s12 Hn1 R12) as (_ & _ & _ & _ & _ & Fby12 & _).
+  destruct (cleanup_frame c P1 HP1 s s1 Hn R1) as (_ & _ & _ & _ & _ & Fby1 & _).
+  destruct (cleanup_frame c P2 HP2 s s2 Hn R2) as (_ & _ & _ & _ & _ & Fby2 & _).
   destruct (Fby12 f l12 H12) as (l1 & Hl1 & _). destruct (Fby1 f l1 Hl1) as (l & Hl & _).
   destruct (Fby2 f l2 H2) as (l' & Hl' & _). rewrite Hl in Hl'. inversion Hl'; subst l'.
-  rewrite (by_flow_char c t2 s1 s12 Hn1 R12 Hcl1 f l1 l12 Hl1 H12 x).
-  rewrite (by_flow_char c t1 s s1 Hn R1 Hcl f l l1 Hl Hl1 x).
-  rewrite (by_flow_char c t2 s s2 Hn R2 Hcl f l l2 Hl H2 x).
-  pose proof (later_same_domain c t1 t2 s s1 s12 s2 Hgt Ht Hn R1 R12 R2 x) as Hd.
-  pose proof (cleanup_dom c t2 s1 s12 x Hn1 R12) as Hd12.
+  rewrite (by_flow_char c P2 s1 s12 HP2 Hn1 R12 Hcl1 f l1 l12 Hl1 H12 x).
+  rewrite (by_flow_char c P1 s s1 HP1 Hn R1 Hcl f l l1 Hl Hl1 x).
+  rewrite (by_flow_char c P2 s s2 HP2 Hn R2 Hcl f l l2 Hl H2 x).
+  pose proof (later_same_domain c P1 P2 HP1 HP2 Hmono s s1 s12 s2 Hn R1 R12 R2 x) as Hd.
+  pose proof (cleanup_dom c P2 s1 s12 x HP2 Hn1 R12) as Hd12.
   split.
   - intros [[Hx _] Hp]. split; [exact Hx|]. tauto.
   - intros [Hx Hp]. assert (Hp12 : slook (flows s12) x <> None) by tauto.
